@@ -54,6 +54,9 @@ func oracle(c Case) *ev.Verdict {
 		e := o.Escapes[0]
 		return ev.V("panic:"+e.Op+":"+e.Frame, "%s panicked: %s\n%s", e.Op, e.Value, tp)
 	}
+	if o.Again != "" {
+		return ev.V("second-call-differs:"+strings.SplitN(o.Again, " ", 2)[0], "%s\n%s", o.Again, tp)
+	}
 	if len(o.AddErr) > 0 {
 		for n, e := range o.AddErr {
 			return ev.V(fmt.Sprintf("harness:addtype-%d", e.Code), "AddType(%s) fails: %s\n%s", n, e, tp)
